@@ -103,6 +103,9 @@ def main(argv):
                 violations.append((c["subcheck"], c["violation"], "corpus/%s/%s" % (pid, c["file"])))
 
         # ---- phase 1: generated search, one OS process per (sub-check, shard) ----------
+        if only and not any(sc.name in only for sc in mod.SUBCHECKS):
+            print("HARNESS-ERROR property=%s no sub-check named %s (have: %s)" % (pid, ",".join(only), ",".join(sc.name for sc in mod.SUBCHECKS)))
+            return 2
         jobs = []
         for sc in mod.SUBCHECKS:
             if only and sc.name not in only:
